@@ -323,8 +323,8 @@ for hm in ["miss", "hit"]:
 add("c02_wire_attack_cache", ["C02", "C06"], "quick",
     "MoveGenerator::get_attack_targets: the attack cache is consulted and filled under (colour asked about, this position's key); a hit is returned as is; a miss generates for this board and colour and stores the result",
     ["MoveGenerator::get_attack_targets"], "fully symbolic Disjoint board, symbolic colour, symbolic cached value / miss",
-    stubs=["Targets::get_cached_attack / cache_attack (three-line FxHashMap wrappers) -> recorders; Targets::generate_attack_targets -> arbitrary bitboard + argument record"],
-    module=MG, est_s=60, native=[])
+    stubs=["Targets::get_cached_attack / cache_attack -> recorders (their own contract: c02_attack_store_wire); Targets::generate_attack_targets -> arbitrary bitboard + argument record"],
+    module=MG, est_s=60, native=["acache_get", "acache_put", "attack_targets"])
 
 add("c02_attack_store_wire", ["C02", "C06"], "quick",
     "Targets::get_cached_attack / cache_attack executed for real: the map is read / written exactly once, under the key (colour asked about, position key) in both directions, the value stored is the value passed, a stored entry is returned as stored",
